@@ -15,7 +15,7 @@ def gen_cases(tier, seed, plans_quick, plans_thorough, kinds, nslices=(2, 3), sp
         for k in kinds:
             for s in range(nsl):
                 cases.append({"plan": p, "kind": k, "slice": [s, nsl], "seed": seed, "spec_extra": spec_extra or {}})
-    if pairs and tier == "thorough":
+    if pairs and tier == "thorough":  # (checks that want pairs in the quick tier add them themselves)
         for p in plans:
             for (k1, k2) in pairs:
                 cases.append({"plan": p, "kind": k1, "kind2": k2, "pairs": 12, "seed": seed,
